@@ -270,12 +270,22 @@ def evaluate_all(ctx, model: Model, rule: str, select=None, on_case=None):
     if not ok:
         raise AnalysisError(f"oracle '' -> Empty not justified by __infer_type: {why}")
     scanned, bad = bound_precondition(model)
-    bounds = BOUNDS_THOROUGH if ctx.tier == "thorough" else BOUNDS_QUICK
+    bounds = list(BOUNDS_THOROUGH if ctx.tier == "thorough" else BOUNDS_QUICK)
     exhaustive = not bad
     if bad:
-        ctx.note("order-type sufficiency precondition FAILED (bounds used outside comparisons): "
-                 + "; ".join(bad[:3]) + " - falling back to the widened grid, verdict is bounded")
-        bounds = BOUNDS_THOROUGH + [5, 6, 8, 9, 10]
+        ctx.note("order-type sufficiency precondition FAILED (bounds used outside comparisons with 0/1/None/each other): "
+                 + "; ".join(bad[:3]) + " - the grid is widened by the constants the code computes with and by multi-digit values; "
+                 "the verdict is bounded")
+        bounds = list(BOUNDS_THOROUGH) + [5, 6, 8, 9, 10, 11, 12, 99, 100, 101]
+    # constants the quantifier code (entries and everything they call inside Pregex) compares or computes with
+    from ..consts import call_closure, interesting_ints, around
+    reach = call_closure(model, [e.func for e in entries(model)] + [model.method(PRE, "Pregex", m) for m in RANGE])
+    extra = [v for v in around(interesting_ints(reach), lo=-2) if v not in bounds and v not in (0, 1, 2, 3)]
+    if extra:
+        ctx.note(f"bound grid extended by constants found in the quantifier code: {extra}")
+        bounds += extra[:12]
+        exhaustive = exhaustive and len(extra) <= 12
+    ctx.extra["bound_grid"] = [repr(b) for b in bounds]
     ents = entries(model)
     ctx.floor(rule, len(ents), 16, "quantifier entry points")
     recvs = receivers(ctx.tier)
